@@ -421,17 +421,32 @@ def chk_decl_no_node(il, txt):
             return ['the XML declaration produced a processing-instruction node (target xml) as first child of the root node']
     return []
 
-PROPS['C03'] = P_('markup mirrors the logical structure', 'tok,arena', plan(G_COMMON_QUICK, G_COMMON_THOROUGH), impl_checks=[chk_decl_no_node],
+PROPS['C03'] = P_('markup mirrors the logical structure', 'tok,arena', plan(G_COMMON_QUICK + [['dtdlit', 1]], G_COMMON_THOROUGH + [['dtdlit', 1]]), impl_checks=[chk_decl_no_node],
                   observable=obs_reject_wellformed(lambda d: d.markup()), internal=[('TK', tok_strings), ('TKRES', res_kind_only)], special='markup')
 PROPS['C04'] = P_('character data decoding', 'arena,ev',
-                  plan(G_COMMON_QUICK[:2] + [['pieces-text', 2]], G_COMMON_THOROUGH[:3] + [['pieces-text', 4]]),
+                  plan(G_COMMON_QUICK[:2] + [['pieces-text', 2], ['cdatalines', 4]], G_COMMON_THOROUGH[:3] + [['pieces-text', 4], ['cdatalines', 5]]),
                   observable=mk_obs(lambda d: d.texts()), internal=[('EV F', strip_storage)], special='pieces_text', requires=['markup'])
 PROPS['C05'] = P_('attributes', 'arena,ev',
                   plan(G_COMMON_QUICK[:2] + [['pieces-attr', 2]], G_COMMON_THOROUGH[:3] + [['pieces-attr', 4]]),
                   observable=mk_obs(lambda d: d.attributes()), internal=[('EV V', strip_storage)], special='pieces_attr', requires=['markup'])
-PROPS['C06'] = P_('namespaces', 'arena', plan(G_COMMON_QUICK, G_COMMON_THOROUGH),
-                  observable=mk_obs(lambda d: d.namespaces()), internal=[('V', strip_storage), 'O'], special='ns_scale', requires=['markup'])
-PROPS['C07'] = P_('entity reference = replacement text', 'arena', plan([['model', 1500, 10]], [['model', 60000, 10]]),
+NS_ERRORS = ('err:UnknownNamespace', 'err:DuplicatedNamespace', 'err:UnexpectedXmlUri', 'err:UnexpectedXmlnsUri',
+             'err:InvalidXmlPrefixUri', 'err:InvalidElementNamePrefix', 'err:NamespacesLimitReached')
+
+def obs_ns(di, dm, il, ml):
+    """C06: the namespaces when both accept; and a disagreement about acceptance in which the rejecting
+    side gives a namespace error (a name that should resolve does not, or one that should not does)"""
+    if di.ok and dm.ok:
+        return (True, di.namespaces()), (True, dm.namespaces())
+    ki, km = res_kind(res_line(il)), res_kind(res_line(ml))
+    if dm.ok and ki in NS_ERRORS:
+        return ('rejected', ki), ('accepted',)
+    if di.ok and km in NS_ERRORS:
+        return ('accepted',), ('rejected', km)
+    return None, None
+
+PROPS['C06'] = P_('namespaces', 'arena', plan(G_COMMON_QUICK + [['ns', 1]], G_COMMON_THOROUGH + [['ns', 20]]),
+                  observable=obs_ns, internal=[('V', strip_storage), 'O'], special='ns_scale', requires=['markup'])
+PROPS['C07'] = P_('entity reference = replacement text', 'arena', plan([['model', 1500, 10], ['entnames', 1]], [['model', 60000, 10], ['entnames', 1]]),
                   observable=obs_entities(lambda d: d.content()), special='hoist')
 PROPS['C08'] = P_('ill-formed documents are rejected', 'tok,arena', plan(G_COMMON_QUICK, G_COMMON_THOROUGH),
                   observable=lambda di, dm, il, ml: (res_kind(res_line(il)) == 'ok', res_kind(res_line(ml)) == 'ok'),
